@@ -225,8 +225,8 @@ def oracle_label(case: Any, obs: Any) -> Optional[str]:
     if any(ord(c) >= 32 and ILLEGAL1.match(c) for c in texts):
         return None
     if obs[0] in (0, 3):
-        if '\x0c' in texts or '\xa0' in texts:
-            return None      # the two known re-parse failures (form feed, no-break space), see fn 13
+        if '\xa0' in texts:
+            return None      # the known re-parse failure (no-break space), see fn 13
         return 'node2stan fails on the label %r' % (items,)
     if obs[0] != 1:
         return 'unexpected %s' % (obs,)
@@ -544,13 +544,13 @@ class Check(PropertyCheck):
                  'for every stan tree whose tag/attribute names are XML names the reader reads flatten(s) back as the tree, '
                  'adjacent text merged: well-formed, balanced, elements/attributes/text exactly those of the tree whatever '
                  'characters texts and attribute values hold (C10_flatten_reads_back, C10_no_markup_from_text); html2stan(encode t) '
-                 'is one text node except for FORM FEED / NO-BREAK SPACE (C10_html2stan_roundtrip_partial/_refuted); docutils encode/attval are inverted and start tags read back (C10_docutils_escape, C10_starttag_safe_partial); '
+                 'is one text node except for NO-BREAK SPACE (C10_html2stan_roundtrip_partial/_refuted; FORM FEED before cc2b510: _formfeed_old_refuted); docutils encode/attval are inverted and start tags read back (C10_docutils_escape, C10_starttag_safe_partial); '
                  'validate_identifier accepts only dotted identifiers (C10_identifier_guard); which non-XML characters survive '
                  '(C10_ctrl_chars_partial); the reST generated for @deprecated is one body line and the replacement sits in one literal for EVERY decorator argument (C10_deprecate_one_line, C10_deprecate_literal; the old clean-up: _old_refuted). Tied to /repo by regenerated escape tables and byte-for-byte correspondence; whole-run '
                  'stream parses every page of tiny adversarial projects in every docformat.'),
         'note': ('Trusted: Coq kernel, extraction + OCaml driver, Python harness, expat as reference parser. Modelled not verified: '
                  'twisted template engine, docutils parser and writer visit methods, page templates (sampled by the whole-run stream). '
-                 'Known findings: FORM FEED and NO-BREAK SPACE make the re-parse path fail (rendering dropped, pages stay well-formed). Fixed in /repo (0e1361d): @deprecated replacement text leaving its reST literal.'),
+                 'Known findings: NO-BREAK SPACE makes the re-parse path fail (rendering dropped, pages stay well-formed); math \\text{} and javascript: URLs in docstrings. Fixed in /repo: cc2b510 (form feed not neutralised), 0e1361d: @deprecated replacement text leaving its reST literal.'),
         'technique': 'Coq proof (XML reader inverts the escapers; induction on stan trees) + regenerated tables + exhaustive/random correspondence + whole-run differential oracle',
     }
     assumptions = ['tag and attribute names of stan trees are ASCII XML names without colon (they come from templates and code, not from source text)',
@@ -598,7 +598,7 @@ class Check(PropertyCheck):
     def text_cases(self) -> List[Any]:
         n = 3 if self.tier == 'quick' else 4
         out: List[Any] = []
-        strings = small_strings(n) + FRAGS
+        strings = ['\x0c', 'a\x0cb', '\x0c<zzq/>\x0c', 'p\x0cq\x0b\x01'] + small_strings(n) + FRAGS
         nrand = 600 if self.tier == 'quick' else 20000
         strings += [self.adv(8) for _ in range(nrand)]
         for s in strings:
@@ -650,7 +650,7 @@ class Check(PropertyCheck):
         """default values of every constant kind that can hold text, as the signature shows them (format_signature)"""
         out = []
         corpus = ['<script>alert(2)</script>', '<img src="x" onerror="alert(1)"/>', '<zzq/>', '<zzq onzz="1">x</zzq>', '<br/>', '<b>x</b>',
-                  '<p>', 'a&b', '&lt;', ']]>', '--> <zzq/>', '"', "'", '\x01<zzq/>', '\xe9<zzq/>', '\n<zzq/>']
+                  '<p>', 'a&b', '&lt;', ']]>', 'p\x0cq', '--> <zzq/>', '"', "'", '\x01<zzq/>', '\xe9<zzq/>', '\n<zzq/>']
         for p in corpus:
             for kind in self.SIG_KINDS:
                 out.append([16, [self.sig_expr(kind, p), self.sig_expr(kind, BENIGN), kind, p]])
